@@ -402,19 +402,30 @@ def rule_time_budget(ctx):
     ix = ctx.ix
     b = ctx.body(C.SEARCH)
     sym = ctx.sym(b)
+    # per side to move (per-case constant propagation): what is stored into limits.time_management_timer
+    from . import cases
     rows = {}
-    for bi, t in b.calls():
-        if not callee_is(t, "*::into"):
+    for c in ("White", "Black"):
+        run = cases.run(ix, b, {"*self.board.current_turn": cases.enum_val(ix, "board::piece::Color", c)})
+        vals = []
+        for p in run.paths:
+            for e in p.events:
+                if e[0] == "store" and e[2].endswith("limits.time_management_timer"):
+                    vals.append(e[3])
+        if run.overflow or not vals:
+            rows[c] = None
             continue
-        e = sym.operand(t["args"][0])
-        flds = sorted({x[-1] for x in walk(e) if isinstance(x, tuple) and x[0] == "field" and len(x) >= 3 and x[-2] == "limits"})
-        if not flds:
-            continue
-        cons = C.constraints_for(ix, b, sym, bi)
-        col = [next(iter(c[1])) for c in cons if len(c[1]) == 1 and next(iter(c[1])) in ("White", "Black") and "current_turn" in c[0]]
-        divs = sorted(x[3][1] for x in walk(e) if isinstance(x, tuple) and x[0] == "bin" and x[1] == "Div" and x[3][0] == "const")
-        shape_ok = e[0] == "bin" and e[1].startswith("Add") and all(isinstance(y, tuple) and y[0] == "bin" and y[1] == "Div" for y in (e[2], e[3])) and all(d >= 1 for d in divs)
-        rows[col[-1] if col else None] = (flds, shape_ok)
+        flds = sorted({x[-1] for v in vals for x in walk(v) if isinstance(x, tuple) and x[0] == "field" and len(x) >= 3 and x[-2] == "limits"})
+        shape_ok = True
+        for v in vals:
+            inner = mir.strip_copies(v)
+            if inner[0] == "agg" and inner[2] == "Some" and inner[3]:
+                inner = mir.strip_copies(inner[3][0])
+            if inner[0] == "call" and inner[1].endswith("::into") and inner[2]:
+                inner = mir.strip_copies(inner[2][0])
+            divs = [x[3][1] for x in walk(inner) if isinstance(x, tuple) and x[0] == "bin" and x[1] == "Div" and x[3][0] == "const"]
+            shape_ok = shape_ok and inner[0] == "bin" and inner[1].startswith("Add") and all(isinstance(y, tuple) and y[0] == "bin" and y[1] == "Div" for y in (inner[2], inner[3])) and all(d >= 1 for d in divs) and len(divs) == 2
+        rows[c] = (flds, shape_ok)
     want = {"White": ["white_increment", "white_time"], "Black": ["black_increment", "black_time"]}
     for c in ("White", "Black"):
         got = rows.get(c)
